@@ -177,6 +177,125 @@ class RereadStream(MonStream):
         return super().generate(rng, tier)[:60 if tier == "quick" else 800]
 
 
+# ---------------------------------------------------------------------------------------------
+# multi-mode circuits: monitored structures linked through pins that carry modes
+
+
+def expand_desc(d):
+    """the same circuit with every component expanded to d['modes'] (mode-major ports), as a plain netlist"""
+    modes = d["modes"]
+    npm = len(modes)
+    e = {k: v for k, v in d.items() if k not in ("comps", "conns", "expo", "exc")}
+    e["comps"] = []
+    for c in d["comps"]:
+        n = c["n"]
+        S = netlib.j2m(c["S"]).reshape(n, n)
+        big = np.zeros((n * npm, n * npm), complex)
+        for mi in range(npm):
+            big[mi * n:(mi + 1) * n, mi * n:(mi + 1) * n] = S
+        e["comps"].append({"n": n * npm, "S": netlib.m2j(big), "perm": list(range(n * npm))})
+    e["conns"] = [[[a[0], mi * d["comps"][a[0]]["n"] + a[1]], [b[0], mi * d["comps"][b[0]]["n"] + b[1]]]
+                  for a, b in d["conns"] for mi in range(npm)]
+    e["expo"] = [[c, mi * d["comps"][c]["n"] + k, f"{name}_{modes[mi]}"] for (c, k, name) in d["expo"]
+                 for mi in range(npm)]
+    e["exc"] = dict(d["exc"])
+    return e
+
+
+def run_python_modes(d):
+    modes = d["modes"]
+    sts = []
+    with lk.Solver() as sol:
+        for c in d["comps"]:
+            sts.append(netlib.comp_model(c).expand_mode(list(modes)).put())
+        for a, b in d["conns"]:
+            lk.connect_all(sts[a[0]], f"p{a[1]}", sts[b[0]], f"p{b[1]}")
+        for (c, k, name) in d["expo"]:
+            for m in modes:
+                lk.Pin(name, m).put(sts[c].pin[f"p{k}_{m}"])
+    for i in d["mon"]:
+        sol.monitor_structure(sts[i], name=f"M{i}")
+    mod = sol.solve()
+    exc = {n: complex(*v) for n, v in d["exc"].items()}
+    tab = mod.get_monitor(dict(exc), power=d["power"])
+    names = [f"{name}_{m}" for (_, _, name) in d["expo"] for m in modes]
+    if sorted(p.name for p in mod.pin_dic) != sorted(names):
+        raise ValueError("exposed pin set differs")
+    e = expand_desc(d)
+    M = netlib.observe_expo(mod, [x[2] for x in e["expo"]])
+    cols = {}
+    for c in tab.columns:
+        m = re.fullmatch(r"M(\d+)_p(\d+)_(\w+?)_(i|o)", str(c))
+        if not m:
+            if re.fullmatch(r"M\d+_.*_(i|o)", str(c)):
+                raise ValueError("monitor column without a mode: %s" % c)
+            continue
+        ci, k, mode = int(m.group(1)), int(m.group(2)), m.group(3)
+        key = (ci, modes.index(mode) * d["comps"][ci]["n"] + k)
+        cols.setdefault(key, {})[m.group(4)] = complex(np.asarray(tab[c])[0])
+    read = []
+    for (ci, pk), v in sorted(cols.items()):
+        if "i" not in v or "o" not in v:
+            raise ValueError("incomplete monitor column pair")
+        read.append((ci, pk, v["i"], v["o"]))
+    return M, read
+
+
+class ModeMonStream(MonStream):
+    """every component expanded to two or three modes and wired with connect_all: the read-out must list every
+    (pin, mode) link of the monitored structures"""
+    name = "modes"
+
+    def generate(self, rng, tier):
+        out = []
+        while len(out) < (50 if tier == "quick" else 600):
+            d = gen_case(rng, "quick")
+            if len(d["comps"]) > 3:
+                continue
+            d["modes"] = rng.sample(["te", "tm", "x"], rng.choice([2, 2, 3]))
+            names = [f"{x[2]}_{m}" for x in d["expo"] for m in d["modes"]]
+            d["exc"] = {}
+            for n in names:
+                if rng.random() < 0.6:
+                    z = rand_dyadic(rng, 16, 8)
+                    d["exc"][n] = [z.real, z.imag]
+            out.append(d)
+        return out
+
+    def run(self, d):
+        e = expand_desc(d)
+        try:
+            M, read = run_python_modes(d)
+            obs = netlib.obs_matrix_lit(M)
+            rd = "Obs " + clist("(%s, %s, %s)" % (netlib.spin(c, k), cf(a), cf(b)) for c, k, a, b in read)
+        except Exception:
+            obs, rd = "Raised", "Raised"
+        u = clist("(%s, %s)" % (netlib.spin(c, k), cq(complex(*d["exc"][n])))
+                  for (c, k, n) in e["expo"] if n in d["exc"])
+        return ("{| mn_net := %s; mn_ids := %s; mn_u := %s; mn_power := %s; mn_read := %s |}"
+                % (netlib.net_case_lit(e, obs), clist(cnat(i) for i in d["mon"]), u,
+                   "true" if d["power"] else "false", rd))
+
+    def shrink(self, d):
+        out = []
+        if len(d["modes"]) > 2:
+            for m in d["modes"]:
+                e = copy.deepcopy(d)
+                e["modes"].remove(m)
+                e["exc"] = {n: v for n, v in e["exc"].items() if not n.endswith("_" + m)}
+                out.append(e)
+        for n in list(d["exc"]):
+            e = copy.deepcopy(d)
+            del e["exc"][n]
+            out.append(e)
+        return out
+
+    def py_repro(self, d):
+        return ("import sys; sys.path.insert(0,'/verif/harness'); import c10, json\n"
+                f"d=json.loads({json.dumps(d)!r})\n"
+                "M,read=c10.run_python_modes(d); print(M); print(read)\n")
+
+
 TRUSTED = [
     "Coq 8.16.1 kernel + vm_compute", "Bignums/Uint63 primitives for the executed instance BQCf",
     "hand-written model Monitor.v tied to /repo by this correspondence run (sampled)",
@@ -184,7 +303,7 @@ TRUSTED = [
 ]
 
 if __name__ == "__main__":
-    main("C10", [MonStream(), LateStream(), RereadStream()],
+    main("C10", [MonStream(), LateStream(), RereadStream(), ModeMonStream()],
          level_text="props/C10.v; the tie declares every non-empty proper subset of small circuits (random subsets of larger "
                     "ones) as monitors, excites random subsets of the exposed pins with complex amplitudes (amplitude and power "
                     "mode), and compares the external matrix and the SET of read-out columns (a spurious or missing column is a "
